@@ -40,7 +40,7 @@ def plan(tier, seed):
     return {
         "level": "translation_validation",
         "rule": "every module AST pair (before, after) passing through PythonASTOptimizer.visit while basilisp.core and the bundled library namespaces are compiled from source (caching off), while the generated "
-        "program corpus of C01/C02 is compiled, and for a targeted operator corpus (each operator-module function the optimizer knows x operand shapes literal/name/effectful call), and for generated programs whose nested sync/async functions def the same Vars at several levels, in untaken branches and behind unreachable "
+        "program corpus of C01/C02 is compiled, and for a targeted operator corpus (each operator-module function the optimizer knows x operand shapes literal/name/host field access/effectful call), and for generated programs whose nested sync/async functions def the same Vars at several levels, in untaken branches and behind unreachable "
         "code (the global declarations the pass de-duplicates); pairs are compared after "
         "canonicalisation by an independent implementation of the allowed rewrites; generated programs are additionally executed with the real optimizer and with a least-optimizing baseline. "
         "programs = module pairs checked; disagreements_checked = pairs the optimizer actually changed (each classified).",
@@ -366,6 +366,13 @@ def operators(b, out, mode, pairs, judge_pairs, only=None):
                 texts.append(f"(let [x7 {a}] (operator/{f} x7 {c}))")
                 texts.append(f"(operator/{f} (t 1 {a}) (t 2 {c}))")
                 texts.append(f"(let [x7 {a}] (operator/{f} x7 (t 2 {c})))")
+    # operand shape "host field access" (a dotted name in the generated Python: reading it can run code or fail, so it is an
+    # effectful operand like a call), on either side of a traced call
+    for f in binfns:
+        for a in ("3", '"ab"', "[1 2 3]"):
+            for c in ("1", '"a"'):
+                texts.append(f"(let [x7 {a}] (operator/{f} (.-real x7) (t 2 {c})))")
+                texts.append(f"(let [x7 {a}] (operator/{f} (t 1 {c}) (.-real x7)))")
     for f in unfns:
         for a in operand_vals:
             texts.append(f"(operator/{f} {a})")
